@@ -13,7 +13,10 @@ import (
 	"fmt"
 	"os"
 	"path/filepath"
+	"strings"
 	"time"
+
+	"github.com/grafana/carbon-relay-ng/matcher"
 
 	"verifharness/mon"
 )
@@ -100,6 +103,156 @@ func firstMatchHealth(res *mon.Result, idx int, scratch string) {
 	res.NonTrivial(fmt.Sprintf("firstmatch-health/%d/%v", idx, laterSpools))
 }
 
+// routeListChange (added after seeded change C01-w2-1): a line is in the middle of its walk over the table's
+// routes - held inside the Dispatch of the route at position p - while a route is deleted from or added to the
+// table. Every route that is in the table before AND after the change and whose filter accepts the line must
+// still receive it exactly once (the deleted / added route itself: at most once); a line dispatched after the
+// change goes to exactly the matching routes of the new table.
+func routeListChange(res *mon.Result, idx int) {
+	r := mon.NewRng(mon.Seed(), 1102, uint64(idx))
+	t := mon.NewTable("none", "none", false, "/nonexistent")
+	n := r.Range(3, 6)
+	type rt struct {
+		key    string
+		prefix string
+		cap    *mon.CaptureRoute
+	}
+	var routes []*rt
+	hold := make(chan struct{})
+	entered := make(chan struct{}, 1)
+	p := r.Intn(n)
+	inflight := fmt.Sprintf("a.c01rl%d.inflight 1 1500000000", idx)
+	for i := 0; i < n; i++ {
+		prefix := r.Pick([]string{"", "", "a.", "b."})
+		if i == p {
+			prefix = r.Pick([]string{"", "a."}) // the holding route must accept the line
+		}
+		m, err := matcher.New(prefix, "", "", "", "", "")
+		if err != nil {
+			panic(err)
+		}
+		x := &rt{fmt.Sprintf("c01rl%d_%d_s%d", idx, i, mon.Seed()), prefix, nil}
+		x.cap = mon.NewCaptureRoute(x.key, m, nil)
+		if i == p {
+			x.cap.Hook = func(buf []byte) {
+				if string(buf) == inflight {
+					entered <- struct{}{}
+					<-hold
+				}
+			}
+		}
+		routes = append(routes, x)
+		t.AddRoute(x.cap)
+	}
+	del := r.Chance(2, 3)
+	q := r.Intn(n)
+	desc := ""
+	var added *rt
+	go t.Dispatch([]byte(inflight))
+	select {
+	case <-entered:
+	case <-time.After(20 * time.Second):
+		res.Inconclusive(fmt.Sprintf("routeListChange %d: the dispatcher never reached route %d", idx, p))
+		close(hold)
+		return
+	}
+	changed := make(chan struct{})
+	go func() {
+		if del {
+			t.DelRoute(routes[q].key)
+		} else {
+			m, _ := matcher.New("", "", "", "", "", "")
+			added = &rt{fmt.Sprintf("c01rl%d_new_s%d", idx, mon.Seed()), "", mon.NewCaptureRoute(fmt.Sprintf("c01rl%d_new_s%d", idx, mon.Seed()), m, nil)}
+			t.AddRoute(added.cap)
+		}
+		close(changed)
+	}()
+	select {
+	case <-changed:
+	case <-time.After(20 * time.Second):
+		res.Inconclusive(fmt.Sprintf("routeListChange %d: the table change did not return while a dispatcher was inside a route", idx))
+		close(hold)
+		return
+	}
+	if del {
+		desc = fmt.Sprintf("delRoute of route #%d of %d", q, n)
+	} else {
+		desc = fmt.Sprintf("addRoute of a %dth route", n+1)
+	}
+	close(hold)
+	res.LogCase("routeListChange %d: dispatcher held in route #%d, %s", idx, p, desc)
+	after := fmt.Sprintf("a.c01rl%d.after 2 1500000000", idx)
+	// the in-flight Dispatch returns on its own goroutine: wait (bounded steps) until the last matching route has it
+	settle := func() {
+		for step := 0; step < 2000; step++ {
+			okAll := true
+			for i, x := range routes {
+				if del && i == q {
+					continue
+				}
+				if strings.HasPrefix(inflight, x.prefix) && countLine(x.cap, inflight) == 0 {
+					okAll = false
+				}
+			}
+			if okAll {
+				return
+			}
+			time.Sleep(time.Millisecond)
+		}
+	}
+	settle()
+	t.Dispatch([]byte(after))
+	var layout []string
+	for i, x := range routes {
+		layout = append(layout, fmt.Sprintf("#%d prefix=%q", i, x.prefix))
+	}
+	w := map[string]interface{}{"routes": layout, "dispatcher_held_in_route": p, "change": desc, "in_flight_line": inflight}
+	for i, x := range routes {
+		wantIn := 0
+		if strings.HasPrefix(inflight, x.prefix) {
+			wantIn = 1
+		}
+		gotIn, gotAfter := countLine(x.cap, inflight), countLine(x.cap, after)
+		if del && i == q {
+			if gotIn > wantIn || gotAfter != 0 {
+				res.Violate("routelist-change:deleted-route", fmt.Sprintf("%s while a line was being dispatched: the deleted route received the in-flight line %d times and the later line %d times", desc, gotIn, gotAfter), w)
+				return
+			}
+			continue
+		}
+		if gotIn != wantIn {
+			res.Violate("routelist-change:inflight-line", fmt.Sprintf("%s while a dispatcher was inside route #%d: route #%d (prefix %q, in the table before and after) received the in-flight line %d times, expected %d", desc, p, i, x.prefix, gotIn, wantIn), w)
+			return
+		}
+		if gotAfter != wantIn {
+			res.Violate("routelist-change:later-line", fmt.Sprintf("after %s: route #%d (prefix %q) received the next line %d times, expected %d", desc, i, x.prefix, gotAfter, wantIn), w)
+			return
+		}
+	}
+	if added != nil {
+		if c := countLine(added.cap, inflight); c > 1 {
+			res.Violate("routelist-change:inflight-line", fmt.Sprintf("the route added during the dispatch received the in-flight line %d times", c), w)
+			return
+		}
+		if c := countLine(added.cap, after); c != 1 {
+			res.Violate("routelist-change:later-line", fmt.Sprintf("the route added during the dispatch received the next line %d times, expected 1", c), w)
+			return
+		}
+	}
+	res.Count("routelist_change_scenarios", 1)
+	res.NonTrivial(fmt.Sprintf("routelist-change/%d/%v/%d/%d", idx, del, p, q))
+}
+
+func countLine(c *mon.CaptureRoute, line string) int {
+	n := 0
+	for _, l := range c.Lines() {
+		if l == line {
+			n++
+		}
+	}
+	return n
+}
+
 func runExtras(res *mon.Result) {
 	n := mon.N(10, 300)
 	scratch := mon.Scratch()
@@ -109,5 +262,9 @@ func runExtras(res *mon.Result) {
 		}
 		firstMatchHealth(res, i, scratch)
 		res.Eval(1)
+		for k := 0; k < 4; k++ {
+			routeListChange(res, i*4+k)
+			res.Eval(1)
+		}
 	}
 }
